@@ -2,6 +2,7 @@
 C12 - property theorems: stack and concatenate join arrays without misaligning them.
 -/
 import DimModel.Lib.Join
+import DimModel.Proofs.C12Join
 namespace DimModel
 open Lib
 
@@ -428,4 +429,644 @@ theorem _root_.DimModel.concatenate_labels {α : Type} (nan : α) (arrays : List
         concat_tail i.toNat
 
 end C12
+end DimModel
+
+/-! ## End-to-end theorems on `Lib.concatenate` / `Lib.stack` (round 4)
+
+Vocabulary (defined in `DimModel/Proofs/C12Join.lean`):
+* `a.axisNamed s` - the axis of `a` named `s`;
+* `JoinInput a` - `a.WF` and every axis is plain (not grouped);
+* `DesignatesAxis a0 axis pos d` - `d` is the name of dimension `pos` of the first input and the `axis` argument is
+  that name or that position;
+* `joinOffset arrays d k` - number of labels the inputs before input `k` carry on `d`;
+* `a.at c` (C10) - name-addressed access: the element at position `c s` along every dimension `s`, whatever the
+  order in which `a` lists its dimensions;
+* `AlignInput a`, `alignVals a newLabels nan` (C06) - the inputs of the `align` theorems, and the values of `a`
+  re-indexed onto `newLabels` (original value at the position of the same labels, `nan` where a label is missing);
+* `labelAt U c s` - the label found at coordinate `c s` of the label list `U s`.
+
+Theorems: `concatenate_spec`, `joinOffset_cover`, `concatenate_refuses_mismatch`, `concatenate_ok_secondary`,
+`stack_noalign_spec`, `stack_refuses_mismatch`, `stack_align_spec`, `stack_align_value`, `concatenate_align_spec`. -/
+
+namespace DimModel
+open Lib C12J
+
+/-- **concatenate (align=False), any number of inputs**: for `n ≥ 1` well-formed inputs over the same set of
+dimension names (listed in any order) whose secondary axes carry, name by name, the labels of the first input,
+concatenation along `d` SUCCEEDS and
+* the result lists the dimensions of the first input;
+* its labels on `d` are the inputs' labels on `d`, concatenated in input order;
+* every other axis is the first input's axis; metadata is dropped, the value kind is the first input's;
+* the result is again a well-formed array with plain axes (so its in-range indices are those its labels announce);
+* VALUES: for every input `k` and every coordinate assignment `c` whose coordinate on `d` is inside input `k`,
+  the result at `c` shifted along `d` by the offset of input `k` (the total extent of inputs `0..k-1`) is input
+  `k`'s element at `c` - both addressed BY DIMENSION NAME, so an input listing its dimensions in another order is
+  read through its own names, never positionally.  (The equation does not need `c` to be in range on the other
+  dimensions; `joinOffset_cover` shows that the blocks cover every position along `d`.) -/
+theorem concatenate_spec {α : Type} (nan : α) (a0 : DimArray α) (rest : List (DimArray α)) (axis : DimKey)
+    (pos : Nat) (d : String) (sort : Bool)
+    (hin : ∀ a ∈ a0 :: rest, JoinInput a)
+    (hperm : ∀ a ∈ rest, a.dims.Perm a0.dims)
+    (hax : DesignatesAxis a0 axis pos d)
+    (hsec : ∀ a ∈ rest, ∀ s ∈ a0.dims, s ≠ d → (a.axisNamed s).labels = (a0.axisNamed s).labels) :
+    ∃ r, concatenate nan (a0 :: rest) axis false sort = .ok r ∧
+      r.dims = a0.dims ∧
+      (r.axisNamed d).labels = (a0 :: rest).flatMap (fun a => (a.axisNamed d).labels) ∧
+      (∀ s ∈ a0.dims, s ≠ d → r.axisNamed s = a0.axisNamed s) ∧
+      r.attrs = [] ∧ r.vkind = a0.vkind ∧
+      JoinInput r ∧
+      ∀ (k : Nat) (hk : k < (a0 :: rest).length) (c : String → Nat),
+        c d < (((a0 :: rest)[k]).axisNamed d).labels.length →
+        r.at (fun s => if s = d then joinOffset (a0 :: rest) d k + c d else c s) = ((a0 :: rest)[k]).at c := by
+  have h0 := hin a0 List.mem_cons_self
+  have hn0 : a0.dims.Nodup := h0.1.2.1
+  obtain ⟨hposd, hd'⟩ := List.getElem?_eq_some_iff.mp hax.1
+  have hpos : pos < a0.axes.length := by simpa [DimArray.dims] using hposd
+  have hidx : a0.dims.idxOf d = pos := by rw [← hd']; exact idxOf_name_eq a0.dims hn0 pos hposd
+  have hre := reorderLikeFirst_ok a0 rest hperm hn0
+  have hj := joinable_all a0 rest pos d hin hperm hax.1 hsec
+  have hnr : ∀ a ∈ rest, a.dims.Nodup := fun a ha => (hin a (List.mem_cons_of_mem _ ha)).1.2.1
+  -- the labels on `d` of the reordered inputs are the labels on `d` of the inputs
+  have hlab : ∀ l : List (DimArray α), (∀ a ∈ l, a.dims.Nodup) →
+      (l.map (reorderTo a0)).map (fun a => (a.axes.getD pos default).labels) =
+        l.map (fun a => (a.axisNamed d).labels) := by
+    intro l hl
+    rw [List.map_map]
+    apply List.map_congr_left
+    intro a ha
+    simp only [Function.comp_apply, reorderTo_axisNamed_pos a0 a pos d (hl a ha) hax.1]
+  have hlab0 : (a0.axes.getD pos default) = a0.axisNamed d := by
+    rw [← hd', axisNamed_getElem a0 hn0 pos hposd]
+  refine ⟨_, concatenate_ok_of_joinable nan a0 rest _ axis pos sort
+    (joinAxis_of_designates a0 axis pos d hn0 hax) hre hn0 hj, ?_, ?_, ?_, rfl, rfl, ?_, ?_⟩
+  · exact concatResult_dims _ _ _ _ hpos
+  · have : ∀ r : DimArray α, r.dims = a0.dims → r.axisNamed d = r.axes.getD pos default := by
+      intro r hr; simp only [DimArray.axisNamed, hr, hidx]
+    rw [this _ (concatResult_dims _ _ _ _ hpos), concatResult_axis_pos _ _ _ _ hpos]
+    simp only [List.flatMap_cons, hlab0]
+    congr 1
+    rw [List.flatMap_def, List.flatMap_def, hlab rest hnr]
+  · intro s hs hsd
+    simp only [DimArray.axisNamed, concatResult_dims _ _ _ _ hpos]
+    apply concatResult_axis_other
+    intro he
+    apply hsd
+    rw [← hd', ← List.getElem_idxOf (List.idxOf_lt_length_of_mem hs)]
+    simp only [he]
+  · exact concatResult_joinInput a0 _ pos hpos h0 hj
+  · intro k hk c hq
+    have hall : ∀ a ∈ a0 :: rest, a.dims.Nodup := fun a ha => (hin a ha).1.2.1
+    have harrs : a0 :: rest.map (reorderTo a0) = (a0 :: rest).map (reorderTo a0) := by
+      rw [List.map_cons, reorderTo_self]
+    have hx : (a0 :: rest.map (reorderTo a0))[k]? = some (reorderTo a0 (a0 :: rest)[k]) := by
+      rw [harrs, List.getElem?_map, List.getElem?_eq_getElem hk]; rfl
+    have hmem : (a0 :: rest)[k] ∈ a0 :: rest := List.getElem_mem hk
+    have hpk : ((a0 :: rest)[k]).dims.Perm a0.dims := by
+      rcases List.mem_cons.mp hmem with h | h
+      · rw [h]
+      · exact hperm _ h
+    have hxa := reorderTo_axisNamed_pos a0 (a0 :: rest)[k] pos d (hall _ hmem) hax.1
+    have := concatResult_at a0 (rest.map (reorderTo a0)) pos d hn0 hax.1 hj k _ hx c (by rw [hxa]; exact hq)
+    rw [reorderTo_at a0 _ hpk (hall _ hmem)
+      (by rw [(hin _ hmem).1.1]; simp)] at this
+    rw [← this]
+    congr 2
+    funext s
+    congr 2
+    unfold joinOffset
+    rw [harrs, ← List.map_take, List.map_map]
+    congr 1
+    apply List.map_congr_left
+    intro a ha
+    simp only [Function.comp_apply, reorderTo_axisNamed_pos a0 a pos d (hall a (List.mem_of_mem_take ha)) hax.1]
+
+/-- the blocks of `concatenate_spec` cover the joined axis: every position below the total extent is the offset of
+some input plus a position inside that input -/
+theorem joinOffset_cover : ∀ (lens : List Nat) (p : Nat), p < lens.sum →
+    ∃ k q, ∃ hk : k < lens.length, q < lens[k] ∧ p = (lens.take k).sum + q
+  | [], p, h => by simp at h
+  | n :: lens, p, h => by
+    by_cases hp : p < n
+    · exact ⟨0, p, by simp, by simpa using hp, by simp⟩
+    · have h' : p - n < lens.sum := by simp only [List.sum_cons] at h; omega
+      obtain ⟨k, q, hk, hq, he⟩ := joinOffset_cover lens (p - n) h'
+      refine ⟨k + 1, q, by simpa using hk, by simpa using hq, ?_⟩
+      simp only [List.take_succ_cons, List.sum_cons]
+      omega
+
+/-- **concatenate (align=False) REFUSES inputs whose secondary axes differ**: if some input carries, on a dimension
+`s` other than the concatenation dimension, labels that are not the first input's labels on `s` (other labels, or the
+same labels in another order), the call raises ValueError - the values are never joined positionally -/
+theorem concatenate_refuses_mismatch {α : Type} (nan : α) (a0 : DimArray α) (rest : List (DimArray α)) (axis : DimKey)
+    (pos : Nat) (d : String) (sort : Bool)
+    (hin : ∀ a ∈ a0 :: rest, JoinInput a)
+    (hperm : ∀ a ∈ rest, a.dims.Perm a0.dims)
+    (hax : DesignatesAxis a0 axis pos d)
+    (b : DimArray α) (hb : b ∈ rest) (s : String) (hs : s ∈ a0.dims) (hsd : s ≠ d)
+    (hne : (b.axisNamed s).labels ≠ (a0.axisNamed s).labels) :
+    concatenate nan (a0 :: rest) axis false sort = .error .value := by
+  have h0 := hin a0 List.mem_cons_self
+  have hn0 : a0.dims.Nodup := h0.1.2.1
+  have hnb : b.dims.Nodup := (hin b (List.mem_cons_of_mem _ hb)).1.2.1
+  obtain ⟨hposd, hd'⟩ := List.getElem?_eq_some_iff.mp hax.1
+  have hre := reorderLikeFirst_ok a0 rest hperm hn0
+  rw [concatenate_noalign_eq nan a0 rest _ axis pos sort (joinAxis_of_designates a0 axis pos d hn0 hax) hre]
+  split
+  · rfl
+  · have hk : a0.dims.idxOf s < a0.dims.length := List.idxOf_lt_length_of_mem hs
+    have hks : a0.dims[a0.dims.idxOf s] = s := List.getElem_idxOf hk
+    rw [labelCheck_true a0 pos _ hn0 (reorderTo a0 b)
+      (List.mem_cons_of_mem _ (List.mem_map.mpr ⟨b, hb, rfl⟩)) (reorderTo_dims a0 b (hperm b hb) hnb)
+      (a0.dims.idxOf s) (by simpa [DimArray.dims] using hk)
+      (fun he => hsd (by rw [← hks, ← hd']; simp only [he]))]
+    · rfl
+    · rw [reorderTo_getD a0 b hnb _ hk, hks, ← axisNamed_getElem a0 hn0 _ hk, hks]
+      exact hne
+
+/-- ... and for ARBITRARY inputs (no well-formedness assumed): whenever `concatenate(..., align=False)` returns a
+result, every (name-reordered) input carries, under the name of each secondary axis of the first input, exactly the
+labels of that axis.  `C12J.JoinAxis a0 axis pos` says that `axis` is a name of `a0` found at `pos`, or the
+non-negative in-range position `pos`. -/
+theorem concatenate_ok_secondary {α : Type} (nan : α) (a0 : DimArray α) (rest : List (DimArray α)) (axis : DimKey)
+    (pos : Nat) (sort : Bool) (r : DimArray α) (hpos : C12J.JoinAxis a0 axis pos)
+    (h : concatenate nan (a0 :: rest) axis false sort = .ok r) :
+    ∃ t, reorderLikeFirst (a0 :: rest) = .ok (a0 :: t) ∧
+      ∀ a ∈ a0 :: t, ∀ ax ∈ a0.axes.eraseIdx pos,
+        ∃ x, a.axes.find? (·.name == ax.name) = some x ∧ x.labels = ax.labels := by
+  have hs : concatenate nan (a0 :: rest) axis false false = .ok r := by
+    cases sort with
+    | false => exact h
+    | true => exact h
+  obtain ⟨_, arrs, hre, _, _⟩ := concatenate_labels nan (a0 :: rest) axis r hs
+  obtain ⟨t, rfl⟩ := C12.reorderLikeFirst_head a0 rest arrs hre
+  refine ⟨t, hre, ?_⟩
+  rw [concatenate_noalign_eq nan a0 rest t axis pos sort hpos hre] at h
+  replace h := C12.ok_of_ite_error h
+  split at h
+  · cases h
+  · rename_i hchk
+    intro a ha ax hax
+    cases hf : a.axes.find? (·.name == ax.name) with
+    | none =>
+      exfalso; apply hchk
+      rw [List.any_eq_true]
+      refine ⟨a, ha, ?_⟩
+      rw [List.any_eq_true]
+      exact ⟨ax, hax, by simp only [hf]⟩
+    | some x =>
+      refine ⟨x, rfl, ?_⟩
+      apply Classical.byContradiction
+      intro hne
+      apply hchk
+      rw [List.any_eq_true]
+      refine ⟨a, ha, ?_⟩
+      rw [List.any_eq_true]
+      exact ⟨ax, hax, by simp only [hf]; simpa using hne⟩
+
+/-! non-vacuity of `concatenate_spec` / `concatenate_refuses_mismatch`: two square arrays over `x`, `y` listing
+their dimensions in opposite orders (a positional join would be shape-compatible), joined along `x` -/
+def exCatA : DimArray Int :=
+  { axes := [{ name := "x", labels := [.num 1, .num 2], kind := .i }, { name := "y", labels := [.num 10, .num 20], kind := .i }]
+    vals := ⟨[2, 2], fun j => 2 * j.getD 0 0 + j.getD 1 0⟩ }
+/-- dims `y, x`; same `y` labels as `exCatA` -/
+def exCatB : DimArray Int :=
+  { axes := [{ name := "y", labels := [.num 10, .num 20], kind := .i }, { name := "x", labels := [.num 3, .num 4], kind := .i }]
+    vals := ⟨[2, 2], fun j => 100 + 2 * j.getD 0 0 + j.getD 1 0⟩ }
+/-- dims `y, x`; the `y` labels of `exCatA` in the other order -/
+def exCatC : DimArray Int :=
+  { axes := [{ name := "y", labels := [.num 20, .num 10], kind := .i }, { name := "x", labels := [.num 3, .num 4], kind := .i }]
+    vals := ⟨[2, 2], fun j => 100 + 2 * j.getD 0 0 + j.getD 1 0⟩ }
+
+theorem exCat_input : ∀ a ∈ [exCatA, exCatB, exCatC], JoinInput a := by
+  intro a ha
+  simp only [List.mem_cons, List.not_mem_nil, or_false] at ha
+  rcases ha with rfl | rfl | rfl
+  · unfold JoinInput exCatA; decide
+  · unfold JoinInput exCatB; decide
+  · unfold JoinInput exCatC; decide
+
+/-- `concatenate([A, B], axis='x')` succeeds, lists `x, y`, carries `1, 2, 3, 4` on `x`, and the element at
+`x = 3rd position, y = 2nd position` is `B`'s element at `x = 1st, y = 2nd` (read through `B`'s own dimension order) -/
+example : ∃ r, concatenate (0 : Int) [exCatA, exCatB] (.name "x") false false = .ok r ∧
+    r.dims = ["x", "y"] ∧ (r.axisNamed "x").labels = [.num 1, .num 2, .num 3, .num 4] ∧
+    r.at (fun s => if s = "x" then 2 + 0 else 1) = 102 := by
+  obtain ⟨r, h, hd, hl, _, _, _, _, hv⟩ := concatenate_spec (0 : Int) exCatA [exCatB] (.name "x") 0 "x" false
+    (fun a ha => exCat_input a (by simp only [List.mem_cons, List.not_mem_nil, or_false] at ha; rcases ha with rfl | rfl <;> simp))
+    (by intro a ha; simp only [List.mem_cons, List.not_mem_nil, or_false] at ha; subst ha; decide)
+    ⟨by decide, Or.inl rfl⟩
+    (by intro a ha; simp only [List.mem_cons, List.not_mem_nil, or_false] at ha; subst ha; decide)
+  refine ⟨r, h, hd, hl, ?_⟩
+  have := hv 1 (by decide) (fun s => if s = "x" then 0 else 1) (by decide)
+  have hf : (fun s : String => if s = "x" then joinOffset [exCatA, exCatB] "x" 1 + (if "x" = "x" then 0 else 1)
+      else if s = "x" then 0 else 1) = (fun s => if s = "x" then 2 + 0 else 1) := by
+    funext s
+    by_cases hs : s = "x"
+    · simp only [hs, if_true]; decide
+    · simp only [hs, if_false]
+  rw [hf] at this
+  rw [this]
+  decide
+
+/-- `concatenate([A, C], axis='x')`: `C` carries the `y` labels in another order, the join is refused -/
+example : concatenate (0 : Int) [exCatA, exCatC] (.name "x") false false = .error .value :=
+  concatenate_refuses_mismatch (0 : Int) exCatA [exCatC] (.name "x") 0 "x" false
+    (fun a ha => exCat_input a (by simp only [List.mem_cons, List.not_mem_nil, or_false] at ha; rcases ha with rfl | rfl <;> simp))
+    (by intro a ha; simp only [List.mem_cons, List.not_mem_nil, or_false] at ha; subst ha; decide)
+    ⟨by decide, Or.inl rfl⟩ exCatC (by simp) "y" (by decide) (by decide) (by decide)
+
+/-- **stack (align=False), any number of inputs**: for `n ≥ 1` well-formed inputs over the same set of dimension
+names (listed in any order) that carry, name by name, the labels of the first input, with a new axis name accepted by
+`_check_stack_axis` and one key per input, `stack` SUCCEEDS; the result lists the new dimension first (labelled by the
+keys), then the first input's axes unchanged; metadata is dropped; and slice `k` of the new dimension holds exactly
+input `k`: `r[k, c] = arrays[k][c]` for every coordinate assignment `c`, the input being addressed BY DIMENSION NAME
+(an input listing its dimensions in another order is read through its own names, never positionally) -/
+theorem stack_noalign_spec {α : Type} [Inhabited α] (nan : α) (a0 : DimArray α) (rest : List (DimArray α))
+    (axis : Option String) (keys : List Label) (kk : Kind) (sort : Bool) (name : String)
+    (hin : ∀ a ∈ a0 :: rest, JoinInput a)
+    (hperm : ∀ a ∈ rest, a.dims.Perm a0.dims)
+    (hname : checkStackAxis axis a0.dims = .ok name)
+    (hkeys : keys.length = (a0 :: rest).length)
+    (hlab : ∀ a ∈ rest, ∀ s ∈ a0.dims, (a.axisNamed s).labels = (a0.axisNamed s).labels) :
+    ∃ r, stack nan (a0 :: rest) axis keys kk false sort = .ok r ∧
+      r.axes = { name := name, labels := keys, kind := kk } :: a0.axes ∧
+      r.attrs = [] ∧ r.vkind = a0.vkind ∧
+      r.vals.shape = r.axes.map (·.labels.length) ∧
+      ∀ (k : Nat) (hk : k < (a0 :: rest).length) (c : String → Nat),
+        r.vals.get (k :: a0.dims.map c) = ((a0 :: rest)[k]).at c := by
+  have h0 := hin a0 List.mem_cons_self
+  have hn0 : a0.dims.Nodup := h0.1.2.1
+  have hpl : ∀ a ∈ a0 :: rest, Plain a := fun a ha => plain_of_joinInput a (hin a ha)
+  have hst := stackable_all a0 rest hpl hperm hlab
+  have hre := reorderLikeFirst_ok a0 rest hperm hn0
+  refine ⟨_, stack_eq_of_stackable nan (a0 :: rest) (a0 :: rest) axis keys kk false sort name a0 _
+    (by rw [getDims_of_perm a0 rest hn0 hperm]; exact hname) rfl hre hn0 hst (by simpa using hkeys),
+    rfl, rfl, rfl, ?_, ?_⟩
+  · simp only [stackResult, NDArr.stackNew, List.map_cons, List.head?_cons, Option.map_some, Option.getD_some,
+      List.length_cons, List.length_map, plain_shape a0 (hpl a0 List.mem_cons_self)]
+    simpa using hkeys.symm
+  · intro k hk c
+    apply stackResult_get name keys kk a0 rest _ k hk c
+    intro o ho
+    refine ⟨hpl o ho, ?_⟩
+    rcases List.mem_cons.mp ho with rfl | ho
+    · exact List.Perm.refl _
+    · exact hperm o ho
+
+/-- **stack (align=True), any number of inputs**: for `n ≥ 1` inputs (`AlignInput`, C06: distinct dimension names,
+unique labels, no `None` label, plain non-empty axes, values of the announced shape) over the same set of dimension
+names (listed in any order) whose same-named axes may carry DIFFERENT label sets, `stack(..., align=True)` SUCCEEDS:
+* the result lists the new dimension first, labelled by the keys, then the dimensions of the first input;
+* on each dimension `s` its labels are `U s`: every label once, exactly the UNION of the inputs' labels on `s` (outer
+  join), ascending when `sort=True`;
+* metadata is dropped; the values have the shape the labels announce;
+* VALUES: slice `i` of the new dimension is input `i` re-indexed onto the union labels - for coordinates `c` inside
+  `U`, `r[i, c]` is the aligned value of input `i` (`alignVals`, C06), read BY DIMENSION NAME: by `alignVals_by_name`
+  it is input `i`'s element at the positions of the labels `U s [c s]` when input `i` carries all of them, and `nan`
+  when it lacks one (`stack_align_value`). -/
+theorem stack_align_spec {α : Type} [Inhabited α] (nan : α) (a0 : DimArray α) (rest : List (DimArray α))
+    (axis : Option String) (keys : List Label) (kk : Kind) (sort : Bool) (name : String)
+    (hin : ∀ a ∈ a0 :: rest, AlignInput a)
+    (hperm : ∀ a ∈ rest, a.dims.Perm a0.dims)
+    (hname : checkStackAxis axis a0.dims = .ok name)
+    (hkeys : keys.length = (a0 :: rest).length) :
+    ∃ (r : DimArray α) (U : String → List Label),
+      stack nan (a0 :: rest) axis keys kk true sort = .ok r ∧
+      r.dims = name :: a0.dims ∧
+      r.axes.map (·.labels) = keys :: a0.dims.map U ∧
+      (∀ s ∈ a0.dims, (U s).Nodup ∧ (∀ v, v ∈ U s ↔ ∃ a ∈ a0 :: rest, v ∈ (a.axisNamed s).labels) ∧
+        (sort = true → (U s).Pairwise (fun x y => Label.le x y = true))) ∧
+      r.attrs = [] ∧
+      r.vals.shape = r.axes.map (·.labels.length) ∧
+      ∀ (i : Nat) (hi : i < (a0 :: rest).length) (c : String → Nat), (∀ s ∈ a0.dims, c s < (U s).length) →
+        r.vals.get (i :: a0.dims.map c) =
+          (alignVals (a0 :: rest)[i] ((a0 :: rest)[i].dims.map U) nan).get ((a0 :: rest)[i].dims.map c) := by
+  have hn0 : a0.dims.Nodup := (hin a0 List.mem_cons_self).1
+  obtain ⟨o0, t, U, hal, htl, hout, hU⟩ := align_outer_same_dims nan a0 rest sort hin hperm
+  have hlen : (o0 :: t).length = (a0 :: rest).length := by simp [htl]
+  have hpall : ∀ a ∈ a0 :: rest, a.dims.Perm a0.dims := by
+    intro a ha
+    rcases List.mem_cons.mp ha with rfl | ha
+    · exact List.Perm.refl _
+    · exact hperm a ha
+  -- facts on every aligned output
+  have hoall : ∀ o ∈ o0 :: t, Plain o ∧ o.dims.Perm a0.dims ∧ ∀ s ∈ a0.dims, (o.axisNamed s).labels = U s := by
+    intro o ho
+    obtain ⟨i, hi, rfl⟩ := List.getElem_of_mem ho
+    obtain ⟨hd, hpl, hl, _⟩ := hout i (hlen ▸ hi) hi
+    exact ⟨hpl, hd ▸ hpall _ (List.getElem_mem _), hl⟩
+  obtain ⟨hd0, hpl0, hl0, _⟩ := hout 0 (by simp) (by simp)
+  simp only [List.getElem_cons_zero] at hd0 hpl0 hl0
+  have hno0 : o0.dims.Nodup := hd0 ▸ hn0
+  have hperm' : ∀ o ∈ t, o.dims.Perm o0.dims := fun o ho => hd0 ▸ (hoall o (List.mem_cons_of_mem _ ho)).2.1
+  have hst := stackable_all o0 t (fun o ho => (hoall o ho).1) hperm'
+    (fun o ho s hs => by
+      rw [hd0] at hs
+      rw [(hoall o (List.mem_cons_of_mem _ ho)).2.2 s hs, hl0 s hs])
+  have hre := reorderLikeFirst_ok o0 t hperm' hno0
+  have hlab0 : o0.axes.map (·.labels) = a0.dims.map U := by
+    rw [axes_labels_by_name o0 hno0 U (fun s hs => hl0 s (hd0 ▸ hs)), hd0]
+  refine ⟨_, U, stack_eq_of_stackable nan (a0 :: rest) (o0 :: t) axis keys kk true sort name o0 _
+    (by rw [getDims_of_perm a0 rest hn0 hperm]; exact hname) hal hre hno0 hst (by simp [hkeys, htl]),
+    ?_, ?_, hU, rfl, ?_, ?_⟩
+  · simp only [stackResult, DimArray.dims, List.map_cons]
+    exact congrArg _ hd0
+  · simp only [stackResult, List.map_cons, hlab0]
+  · simp only [stackResult, NDArr.stackNew, List.map_cons, List.head?_cons, Option.map_some, Option.getD_some,
+      List.length_cons, List.length_map, plain_shape o0 hpl0]
+    congr 1
+    simp [hkeys, htl]
+  · intro i hi c hc
+    have hi' : i < (o0 :: t).length := hlen ▸ hi
+    obtain ⟨hd, hpl, hl, hv⟩ := hout i hi hi'
+    have hpi := hpall _ (List.getElem_mem hi)
+    have hlabi : (o0 :: t)[i].axes.map (·.labels) = (a0 :: rest)[i].dims.map U := by
+      rw [axes_labels_by_name _ hpl.nodup U (fun s hs => hl s (hpi.mem_iff.mp (hd ▸ hs))), hd]
+    rw [← hd0, stackResult_get name keys kk o0 t
+      (fun o ho => ⟨(hoall o ho).1, hd0 ▸ (hoall o ho).2.1⟩) i hi' c]
+    unfold DimArray.at
+    rw [hv, hlabi, hd]
+    rw [show (o0 :: t)[i].axes.map (·.labels.length) = ((o0 :: t)[i].axes.map (·.labels)).map (·.length) by
+      rw [List.map_map]; rfl, hlabi, hd, List.map_map]
+    exact inRange_map _ _ _ (fun s hs => hc s (hpi.mem_iff.mp hs))
+
+/-- the value clause of `stack_align_spec` in words of labels: with `v s` the label found at coordinate `c s` of the
+union labels `U s`, slice `i` holds input `i`'s element at the positions of the labels `v s` when input `i` carries
+all of them, and `nan` as soon as it lacks one -/
+theorem stack_align_value {α : Type} (a : DimArray α) (hn : a.dims.Nodup) (U : String → List Label) (nan : α)
+    (c : String → Nat) :
+    (alignVals a (a.dims.map U) nan).get (a.dims.map c) =
+      if ∀ s ∈ a.dims, labelAt U c s ∈ (a.axisNamed s).labels then
+        a.at (fun s => firstIdx (a.axisNamed s).labels (labelAt U c s))
+      else nan := alignVals_by_name a hn U nan c
+
+/-- **concatenate (align=True), any number of inputs**: for `n ≥ 1` inputs (`AlignInput`, C06) over the same set of
+dimension names (listed in any order) whose SECONDARY axes may carry different label sets,
+`concatenate(..., axis=d, align=True)` SUCCEEDS:
+* the result lists the dimensions of the first input;
+* its labels on `d` are the inputs' labels on `d` concatenated in input order (the joined axis is NOT aligned);
+* on every other dimension `s` its labels are `U s`: every label once, exactly the UNION of the inputs' labels on `s`
+  (outer join), ascending when `sort=True`;
+* metadata is dropped; the values have the shape the labels announce;
+* VALUES: the block of input `k` along `d` (offset: the total extent of inputs `0..k-1`) is input `k` re-indexed onto
+  the union labels of the secondary dimensions - for coordinates `c` inside input `k` on `d` and inside `U` elsewhere,
+  the result at `c` shifted by the offset is the aligned value of input `k` (`alignVals`, C06, read BY DIMENSION NAME
+  through `stack_align_value`: input `k`'s element at the positions of the labels when it carries all of them, `nan`
+  otherwise; on `d` the label looked up is input `k`'s own label at `c d`). -/
+theorem concatenate_align_spec {α : Type} (nan : α) (a0 : DimArray α) (rest : List (DimArray α)) (axis : DimKey)
+    (pos : Nat) (d : String) (sort : Bool)
+    (hin : ∀ a ∈ a0 :: rest, AlignInput a)
+    (hperm : ∀ a ∈ rest, a.dims.Perm a0.dims)
+    (hax : DesignatesAxis a0 axis pos d) :
+    ∃ (r : DimArray α) (U : String → List Label),
+      concatenate nan (a0 :: rest) axis true sort = .ok r ∧
+      r.dims = a0.dims ∧
+      (r.axisNamed d).labels = (a0 :: rest).flatMap (fun a => (a.axisNamed d).labels) ∧
+      (∀ s ∈ a0.dims, s ≠ d → (r.axisNamed s).labels = U s ∧ (U s).Nodup ∧
+        (∀ v, v ∈ U s ↔ ∃ a ∈ a0 :: rest, v ∈ (a.axisNamed s).labels) ∧
+        (sort = true → (U s).Pairwise (fun x y => Label.le x y = true))) ∧
+      r.attrs = [] ∧
+      r.vals.shape = r.axes.map (·.labels.length) ∧
+      ∀ (k : Nat) (hk : k < (a0 :: rest).length) (c : String → Nat),
+        c d < (((a0 :: rest)[k]).axisNamed d).labels.length →
+        (∀ s ∈ a0.dims, s ≠ d → c s < (U s).length) →
+        r.at (fun s => if s = d then joinOffset (a0 :: rest) d k + c d else c s) =
+          (alignVals (a0 :: rest)[k]
+            ((a0 :: rest)[k].dims.map (fun s => if s = d then ((a0 :: rest)[k].axisNamed d).labels else U s))
+            nan).get ((a0 :: rest)[k].dims.map c) := by
+  have hn0 : a0.dims.Nodup := (hin a0 List.mem_cons_self).1
+  obtain ⟨hposd, hd'⟩ := List.getElem?_eq_some_iff.mp hax.1
+  have hpos : pos < a0.axes.length := by simpa [DimArray.dims] using hposd
+  have hidx : a0.dims.idxOf d = pos := by rw [← hd']; exact idxOf_name_eq a0.dims hn0 pos hposd
+  have hdim : a0.dims.getD pos "" = d := by simp [List.getD_eq_getElem?_getD, hax.1]
+  obtain ⟨o0, t, U, hloop, htl, hout, hU⟩ := catAlign_outputs nan a0 rest d sort hin hperm
+  have hlen : (o0 :: t).length = (a0 :: rest).length := by simp [htl]
+  have hpall : ∀ a ∈ a0 :: rest, a.dims.Perm a0.dims := by
+    intro a ha
+    rcases List.mem_cons.mp ha with rfl | ha
+    · exact List.Perm.refl _
+    · exact hperm a ha
+  have hoall : ∀ o ∈ o0 :: t, Plain o ∧ o.dims.Perm a0.dims ∧
+      ∀ s ∈ a0.dims, s ≠ d → (o.axisNamed s).labels = U s := by
+    intro o ho
+    obtain ⟨i, hi, rfl⟩ := List.getElem_of_mem ho
+    obtain ⟨hd, hpl, _, hl, _⟩ := hout i (hlen ▸ hi) hi
+    exact ⟨hpl, hd ▸ hpall _ (List.getElem_mem _), hl⟩
+  obtain ⟨hd0, hpl0, _, hl0, _⟩ := hout 0 (by simp) (by simp)
+  simp only [List.getElem_cons_zero] at hd0 hpl0 hl0
+  have hno0 : o0.dims.Nodup := hd0 ▸ hn0
+  have hpos0 : pos < o0.axes.length := by
+    have := congrArg List.length hd0
+    simp only [DimArray.dims, List.length_map] at this
+    omega
+  have hd0' : o0.dims[pos]? = some d := hd0 ▸ hax.1
+  have hperm' : ∀ o ∈ t, o.dims.Perm o0.dims := fun o ho => hd0 ▸ (hoall o (List.mem_cons_of_mem _ ho)).2.1
+  have hre := reorderLikeFirst_ok o0 t hperm' hno0
+  -- the reordered outputs agree with the first one on every secondary dimension
+  have hj : ∀ x ∈ o0 :: t.map (reorderTo o0), Joinable o0 pos x := by
+    intro x hx
+    rcases List.mem_cons.mp hx with rfl | hx
+    · exact ⟨rfl, plain_shape _ hpl0, fun _ _ _ => rfl⟩
+    · obtain ⟨o, ho, rfl⟩ := List.mem_map.mp hx
+      have hfo := hoall o (List.mem_cons_of_mem _ ho)
+      apply joinable_reorderTo' o0 o pos hpl0 hfo.1 (hperm' o ho)
+      intro k hk hkp
+      have hk' : k < a0.dims.length := by rw [← hd0]; exact hk
+      have hks : o0.dims[k] = a0.dims[k] := by simp only [hd0]
+      have hne : a0.dims[k] ≠ d := fun he => hkp ((List.getElem_inj hn0).mp (he.trans hd'.symm))
+      rw [hks, hfo.2.2 _ (List.getElem_mem _) hne, hl0 _ (List.getElem_mem _) hne]
+  have hharr : o0 :: t.map (reorderTo o0) = (o0 :: t).map (reorderTo o0) := by
+    rw [List.map_cons, reorderTo_self]
+  -- the axis on `d` of reordered output `i` is input `i`'s axis on `d`
+  have hdaxis : ∀ i (h1 : i < (o0 :: t).length) (h2 : i < (a0 :: rest).length),
+      (reorderTo o0 (o0 :: t)[i]).axes.getD pos default = (a0 :: rest)[i].axisNamed d := by
+    intro i h1 h2
+    obtain ⟨_, hpl, hda, _, _⟩ := hout i h2 h1
+    rw [reorderTo_axisNamed_pos o0 _ pos d hpl.nodup hd0', hda]
+  have hlabs : (o0 :: t.map (reorderTo o0)).map (fun a => (a.axes.getD pos default).labels) =
+      (a0 :: rest).map (fun a => (a.axisNamed d).labels) := by
+    rw [hharr, List.map_map]
+    apply map_eq_of_getElem _ _ _ _ hlen
+    intro i h1 h2
+    simp only [Function.comp_apply, hdaxis i h1 h2]
+  have heq := concatenate_align_eq nan a0 rest _ o0 _ axis pos sort (joinAxis_of_designates a0 axis pos d hn0 hax)
+    (hdim ▸ hloop) hre hd0
+  rw [shapeCheck_false o0 pos _ (hj o0 List.mem_cons_self) hj] at heq
+  have hrd := concatResult_dims o0 (o0 :: t.map (reorderTo o0)) pos
+    ((((t.map (reorderTo o0)).map (·.vals))).foldl (fun acc x => acc.concat2 x pos) o0.vals) hpos0
+  refine ⟨_, U, heq, hrd.trans hd0, ?_, ?_, rfl, concatResult_shape o0 _ pos hpos0 hj, ?_⟩
+  · have e : ∀ r : DimArray α, r.dims = a0.dims → r.axisNamed d = r.axes.getD pos default := by
+      intro r hr; simp only [DimArray.axisNamed, hr, hidx]
+    rw [e _ (hrd.trans hd0), concatResult_axis_pos _ _ _ _ hpos0, List.flatMap_def, List.flatMap_def, hlabs]
+  · intro s hs hsd
+    refine ⟨?_, hU s hs hsd⟩
+    rw [← hl0 s hs hsd]
+    simp only [DimArray.axisNamed, hrd]
+    rw [concatResult_axis_other]
+    intro he
+    apply hsd
+    rw [← hd', ← List.getElem_idxOf (List.idxOf_lt_length_of_mem hs)]
+    simp only [← he, hd0]
+  · intro k hk c hq hc
+    have hk' : k < (o0 :: t).length := hlen ▸ hk
+    obtain ⟨hd, hpl, hda, hl, hv⟩ := hout k hk hk'
+    have hpk := hpall _ (List.getElem_mem hk)
+    have hx : (o0 :: t.map (reorderTo o0))[k]? = some (reorderTo o0 (o0 :: t)[k]) := by
+      rw [hharr, List.getElem?_map, List.getElem?_eq_getElem hk']; rfl
+    have hxa := hdaxis k hk' hk
+    have := concatResult_at o0 (t.map (reorderTo o0)) pos d hno0 hd0' hj k _ hx c (by rw [hxa]; exact hq)
+    rw [reorderTo_at o0 _ (hd0 ▸ hd ▸ hpk) hpl.nodup (by rw [hpl.shape]; simp)] at this
+    have hoff : (((o0 :: t.map (reorderTo o0)).take k).map (fun a => (a.axes.getD pos default).labels.length)).sum =
+        joinOffset (a0 :: rest) d k := by
+      unfold joinOffset
+      have h2 := congrArg (List.map List.length) hlabs
+      simp only [List.map_map, Function.comp_def] at h2
+      rw [List.map_take, List.map_take, h2]
+    rw [hoff] at this
+    rw [this]
+    -- the aligned output, addressed by name
+    let U' : String → List Label := fun s => if s = d then ((a0 :: rest)[k].axisNamed d).labels else U s
+    have hlabk : (o0 :: t)[k].axes.map (·.labels) = (a0 :: rest)[k].dims.map U' := by
+      rw [axes_labels_by_name _ hpl.nodup U' (fun s hs => by
+        by_cases hsd : s = d
+        · subst hsd; simp only [U', if_true, hda]
+        · simp only [U', hsd, if_false]
+          exact hl s (hpk.mem_iff.mp (hd ▸ hs)) hsd), hd]
+    unfold DimArray.at
+    rw [hv, hlabk, hd]
+    rw [show (o0 :: t)[k].axes.map (·.labels.length) = ((o0 :: t)[k].axes.map (·.labels)).map (·.length) by
+      rw [List.map_map]; rfl, hlabk, hd, List.map_map]
+    apply inRange_map
+    intro s hs
+    by_cases hsd : s = d
+    · subst hsd; simp only [Function.comp_apply, U', if_true]; exact hq
+    · simp only [Function.comp_apply, U', hsd, if_false]
+      exact hc s (hpk.mem_iff.mp hs) hsd
+
+/-- **stack (align=False) REFUSES inputs whose same-named axes differ**, for any number of inputs listing the same
+dimension names in any order: if some input carries on some dimension `s` labels that are not the first input's labels
+on `s`, `stack` does not return a result (it raises) - never a positional join.  (Generalises
+`stack_error_is_not_ok_of_label_mismatch` from two inputs in the same order to `n` inputs matched by name; only the
+distinctness of the dimension names is needed.) -/
+theorem stack_refuses_mismatch {α : Type} [Inhabited α] (nan : α) (a0 : DimArray α) (rest : List (DimArray α))
+    (axis : Option String) (keys : List Label) (kk : Kind)
+    (hnd : ∀ a ∈ a0 :: rest, a.dims.Nodup)
+    (hperm : ∀ a ∈ rest, a.dims.Perm a0.dims)
+    (b : DimArray α) (hb : b ∈ rest) (s : String) (hs : s ∈ a0.dims)
+    (hne : (b.axisNamed s).labels ≠ (a0.axisNamed s).labels) :
+    ∀ r, stack nan (a0 :: rest) axis keys kk false false ≠ .ok r := by
+  intro r h
+  have hn0 := hnd a0 List.mem_cons_self
+  have hnb := hnd b (List.mem_cons_of_mem _ hb)
+  obtain ⟨name, arrs, axes, h1, _, hchk, _, _⟩ := C12.stack_inv nan (a0 :: rest) axis keys kk r h
+  rw [reorderLikeFirst_ok a0 rest hperm hn0] at h1
+  injection h1 with h1
+  subst h1
+  obtain ⟨hm0, hname0⟩ := axisNamed_mem a0 s hs
+  obtain ⟨c1, hc1, hl1⟩ := hchk a0 List.mem_cons_self _ hm0
+  have hmb : b.axisNamed s ∈ (reorderTo a0 b).axes := by
+    rw [reorderTo_axes a0 b hnb]
+    exact List.mem_map.mpr ⟨s, hs, rfl⟩
+  have hnameb : (b.axisNamed s).name = s := (axisNamed_mem b s ((hperm b hb).mem_iff.mpr hs)).2
+  obtain ⟨c2, hc2, hl2⟩ := hchk (reorderTo a0 b) (List.mem_cons_of_mem _ (List.mem_map.mpr ⟨b, hb, rfl⟩)) _ hmb
+  rw [hname0] at hc1
+  rw [hnameb, hc1] at hc2
+  injection hc2 with hc2
+  subst hc2
+  exact hne (hl2.symm.trans hl1)
+
+/-! non-vacuity of `stack_noalign_spec`, `stack_align_spec`, `concatenate_align_spec` -/
+
+/-- dims `y, x` (the opposite order of `exCatA`), other labels on both dimensions -/
+def exStkB : DimArray Int :=
+  { axes := [{ name := "y", labels := [.num 20, .num 30], kind := .i }, { name := "x", labels := [.num 2, .num 3], kind := .i }]
+    vals := ⟨[2, 2], fun j => 100 + 2 * j.getD 0 0 + j.getD 1 0⟩ }
+
+/-- dims `y, x` (the opposite order of `exCatA`), the labels of `exCatA` on both dimensions -/
+def exStkD : DimArray Int :=
+  { axes := [{ name := "y", labels := [.num 10, .num 20], kind := .i }, { name := "x", labels := [.num 1, .num 2], kind := .i }]
+    vals := ⟨[2, 2], fun j => 100 + 2 * j.getD 0 0 + j.getD 1 0⟩ }
+
+theorem exStkD_input : JoinInput exStkD := by unfold JoinInput exStkD; decide
+
+theorem exStk_check : checkStackAxis (some "z") exCatA.dims = .ok "z" := by
+  simp [checkStackAxis, exCatA, DimArray.dims]
+
+theorem exStk_input : ∀ a ∈ [exCatA, exStkB], AlignInput a := by
+  intro a ha
+  simp only [List.mem_cons, List.not_mem_nil, or_false] at ha
+  rcases ha with rfl | rfl
+  · unfold AlignInput exCatA; decide
+  · unfold AlignInput exStkB; decide
+
+/-- `stack([A, B], axis='z', keys=['a','b'])` for `B` over the dims of `A` in the other order, same labels: slice 1 at
+`x` = 1st position, `y` = 2nd position is `B`'s element there (`B` read as `[y, x]`) -/
+example : ∃ r, stack (0 : Int) [exCatA, exStkD] (some "z") [.str "a", .str "b"] .U false false = .ok r ∧
+    r.vals.get [1, 0, 1] = 102 := by
+  obtain ⟨r, h, _, _, _, _, hv⟩ := stack_noalign_spec (0 : Int) exCatA [exStkD] (some "z") [.str "a", .str "b"] .U
+    false "z"
+    (by
+      intro a ha
+      simp only [List.mem_cons, List.not_mem_nil, or_false] at ha
+      rcases ha with rfl | rfl
+      · exact exCat_input _ (by simp)
+      · exact exStkD_input)
+    (by intro a ha; simp only [List.mem_cons, List.not_mem_nil, or_false] at ha; subst ha; decide)
+    exStk_check rfl
+    (by intro a ha; simp only [List.mem_cons, List.not_mem_nil, or_false] at ha; subst ha; decide)
+  refine ⟨r, h, ?_⟩
+  have := hv 1 (by decide) (fun s => if s = "x" then 0 else 1)
+  have e : exCatA.dims.map (fun s => if s = "x" then 0 else 1) = [0, 1] := by decide
+  rw [e] at this
+  rw [this]
+  decide
+
+/-- `stack([A, B], axis='z', align=True)` for arrays with different labels on both dimensions: it succeeds, lists
+`z, x, y`, and the `x` labels are the union `1, 2, 3` -/
+example : ∃ (r : DimArray Int) (U : String → List Label),
+    stack (0 : Int) [exCatA, exStkB] (some "z") [.str "a", .str "b"] .U true false = .ok r ∧
+    r.dims = ["z", "x", "y"] ∧ r.axes.map (·.labels) = [.str "a", .str "b"] :: [U "x", U "y"] ∧
+    (∀ v, v ∈ U "x" ↔ v = .num 1 ∨ v = .num 2 ∨ v = .num 3) := by
+  obtain ⟨r, U, h, hd, hl, hU, _⟩ := stack_align_spec (0 : Int) exCatA [exStkB] (some "z") [.str "a", .str "b"] .U
+    false "z" exStk_input
+    (by intro a ha; simp only [List.mem_cons, List.not_mem_nil, or_false] at ha; subst ha; decide)
+    exStk_check rfl
+  refine ⟨r, U, h, hd, hl, ?_⟩
+  intro v
+  rw [(hU "x" (by decide)).2.1 v]
+  constructor
+  · rintro ⟨a, ha, hv⟩
+    simp only [List.mem_cons, List.not_mem_nil, or_false] at ha
+    rcases ha with rfl | rfl
+    · have e : (exCatA.axisNamed "x").labels = [.num 1, .num 2] := by decide
+      rw [e] at hv
+      simp only [List.mem_cons, List.not_mem_nil, or_false] at hv
+      rcases hv with h | h <;> simp [h]
+    · have e : (exStkB.axisNamed "x").labels = [.num 2, .num 3] := by decide
+      rw [e] at hv
+      simp only [List.mem_cons, List.not_mem_nil, or_false] at hv
+      rcases hv with h | h <;> simp [h]
+  · rintro (h | h | h)
+    · exact ⟨exCatA, by simp, by subst h; decide⟩
+    · exact ⟨exCatA, by simp, by subst h; decide⟩
+    · exact ⟨exStkB, by simp, by subst h; decide⟩
+
+/-- `concatenate([A, B], axis='x', align=True)`: it succeeds, lists `x, y`, and carries on `x` the labels
+`1, 2` of `A` followed by `2, 3` of `B` (the joined axis is not aligned) -/
+example : ∃ (r : DimArray Int) (U : String → List Label),
+    concatenate (0 : Int) [exCatA, exStkB] (.name "x") true false = .ok r ∧
+    r.dims = ["x", "y"] ∧ (r.axisNamed "x").labels = [.num 1, .num 2, .num 2, .num 3] ∧
+    (r.axisNamed "y").labels = U "y" ∧ (U "y").Nodup := by
+  obtain ⟨r, U, h, hd, hl, hU, _⟩ := concatenate_align_spec (0 : Int) exCatA [exStkB] (.name "x") 0 "x" false
+    exStk_input
+    (by intro a ha; simp only [List.mem_cons, List.not_mem_nil, or_false] at ha; subst ha; decide)
+    ⟨by decide, Or.inl rfl⟩
+  exact ⟨r, U, h, hd, hl, (hU "y" (by decide) (by decide)).1, (hU "y" (by decide) (by decide)).2.1⟩
+
+/-- `stack([A, C], axis='z')`: `C` lists `y, x` and carries the `y` labels in another order - refused -/
+example : ∀ r, stack (0 : Int) [exCatA, exCatC] (some "z") [.str "a", .str "b"] .U false false ≠ .ok r :=
+  stack_refuses_mismatch (0 : Int) exCatA [exCatC] (some "z") [.str "a", .str "b"] .U
+    (by intro a ha; simp only [List.mem_cons, List.not_mem_nil, or_false] at ha; rcases ha with rfl | rfl <;> decide)
+    (by intro a ha; simp only [List.mem_cons, List.not_mem_nil, or_false] at ha; subst ha; decide)
+    exCatC (by simp) "y" (by decide) (by decide)
+
 end DimModel
